@@ -376,6 +376,9 @@ fn program_from_json(v: &Value) -> Option<Program> {
 }
 
 pub fn replay(v: &Value) -> CaseResult {
+    if v.get("kind").and_then(|k| k.as_str()) == Some("c16-contention") {
+        return contention_stress(4000).map(|_| ());
+    }
     let p = program_from_json(v.get("program").unwrap_or(&Value::Null)).ok_or_else(|| Failure { message: "unparsable C16 replay".into(), replay: v.clone() })?;
     // strict: replay explores the whole (bounded) tree of this program, known finding not excluded
     {
@@ -384,7 +387,73 @@ pub fn replay(v: &Value) -> CaseResult {
     }
 }
 
-const RULE: &str = "programs of 2..3 threads x 1..3 calls from {create_dir, write session (create_file+write_all+drop), append session, remove_file, remove_dir, exists, metadata, read_dir, read session} over a universe of 4 directory paths, 4 file paths and 2 paths used by both kinds of calls, with overlapping prefixes, optionally pre-populated; each program's schedule tree (decision at every lock acquisition of MemoryFS and every call boundary) is enumerated depth-first with iterative preemption bounding up to the tier's cap (exhaustive when it fits), then random schedules; additionally the systematic family of all 2-thread (1 call || 2 calls) programs over 12 calls around one hot path that changes type (x 4 initial states: absent, file, directory, file of 100 000 bytes = 6912 programs; all in thorough, 2500 sampled in quick); one random program in eight starts from 100 000-byte files; oracle: (per-call results, final tree) of every explored schedule must be among the results of the sequential executions (all program-order-respecting interleavings of whole calls on the reference model, cross-checked against a single-threaded run of the real MemoryFS), final tree well-formed, no panic, every step reaches its next yield point within 10 s; non-trivial = program in which two threads with a mutator each touch a common path or a parent/child pair, explored with >=1 preemption; evaluations = scheduled executions";
+const RULE: &str = "programs of 2..3 threads x 1..3 calls from {create_dir, write session (create_file+write_all+drop), append session, remove_file, remove_dir, exists, metadata, read_dir, read session} over a universe of 4 directory paths, 4 file paths and 2 paths used by both kinds of calls, with overlapping prefixes, optionally pre-populated; each program's schedule tree (decision at every lock acquisition of MemoryFS and every call boundary) is enumerated depth-first with iterative preemption bounding up to the tier's cap (exhaustive when it fits), then random schedules; additionally the systematic family of all 2-thread (1 call || 2 calls) programs over 12 calls around one hot path that changes type (x 4 initial states: absent, file, directory, file of 100 000 bytes = 6912 programs; all in thorough, 2500 sampled in quick); one random program in eight starts from 100 000-byte files; oracle: (per-call results, final tree) of every explored schedule must be among the results of the sequential executions (all program-order-respecting interleavings of whole calls on the reference model, cross-checked against a single-threaded run of the real MemoryFS), final tree well-formed, no panic, every step reaches its next yield point within 10 s; non-trivial = program in which two threads with a mutator each touch a common path or a parent/child pair, explored with >=1 preemption; evaluations = scheduled executions; PLUS truly parallel threads (two listing a 4000-entry directory, one creating and removing entries) while open_file + metadata run 400 (4000) times: the access time must have been refreshed by every call (contention-dependent behaviour is invisible to a cooperative scheduler)";
+
+/// Truly parallel threads (no scheduler): while two threads list a big directory and one creates
+/// and removes entries, every `open_file` must leave an access time that is not older than the
+/// moment before the call - in every sequential order of whole calls it does. Reaches behaviour
+/// that depends on the lock being CONTENDED, which a cooperative scheduler cannot produce.
+fn contention_stress(rounds: u32) -> Result<u64, Failure> {
+    use std::sync::atomic::{AtomicBool, Ordering};
+    use std::time::{Duration, SystemTime};
+    let root = VfsPath::new(MemoryFS::new());
+    let fail = |m: String| Failure { message: m, replay: json!({"kind": "c16-contention"}) };
+    let dir = root.join("d").map_err(|e| fail(e.to_string()))?;
+    dir.create_dir().map_err(|e| fail(e.to_string()))?;
+    for i in 0..4000 {
+        dir.join(format!("e{}", i)).and_then(|p| p.create_file().map(|_| ())).map_err(|e| fail(e.to_string()))?;
+    }
+    let f = root.join("f").map_err(|e| fail(e.to_string()))?;
+    f.create_file().map_err(|e| fail(e.to_string()))?;
+    std::thread::sleep(Duration::from_millis(40));
+    let stop = AtomicBool::new(false);
+    let mut checked = 0u64;
+    let res: Result<(), String> = std::thread::scope(|s| {
+        for _ in 0..2 {
+            s.spawn(|| {
+                while !stop.load(Ordering::Relaxed) {
+                    let _ = dir.read_dir().map(|it| it.count());
+                }
+            });
+        }
+        s.spawn(|| {
+            let mut i = 0u64;
+            while !stop.load(Ordering::Relaxed) {
+                if let Ok(p) = dir.join(format!("tmp{}", i % 7)) {
+                    let _ = p.create_file();
+                    let _ = p.remove_file();
+                }
+                i += 1;
+            }
+        });
+        let mut out = Ok(());
+        for i in 0..rounds {
+            let t0 = SystemTime::now() - Duration::from_millis(10);
+            let h = f.open_file();
+            let md = f.metadata();
+            drop(h);
+            checked += 1;
+            match md {
+                Ok(m) => {
+                    if let Some(a) = m.accessed {
+                        if a < t0 {
+                            out = Err(format!("open_file #{} returned while other threads list a 4000-entry directory and create/remove entries: the file's access time ({:?} before the call started) was not refreshed - no sequential order of the calls explains that", i, t0.duration_since(a).unwrap_or_default()));
+                            break;
+                        }
+                    }
+                }
+                Err(e) => {
+                    out = Err(format!("metadata failed under contention: {}", e));
+                    break;
+                }
+            }
+        }
+        stop.store(true, Ordering::Relaxed);
+        out
+    });
+    res.map_err(fail)?;
+    Ok(checked)
+}
 
 pub fn run(ctx: &RunCtx) -> i32 {
     // a single case explores thousands of schedules: keep shrinking short
@@ -483,6 +552,15 @@ pub fn run(ctx: &RunCtx) -> i32 {
             }
         }
         stats.label_n("family_size", total as u64);
+    }
+    if failure.is_none() {
+        match contention_stress(ctx.tier.pick(400, 4000)) {
+            Ok(n) => {
+                stats.evaluations += n;
+                stats.label_n("open_file_calls_under_real_contention", n);
+            }
+            Err(f) => failure = Some(f),
+        }
     }
     write_evidence(
         ctx,
